@@ -1910,7 +1910,10 @@ def gen_real_cases(ctx):
     big = 8 * MIB + 4321
     big_up = 12 * MIB + 4321  # the kernel absorbs 4-7 MB on loopback before send() turns partial
     slow = 6 * MIB  # bytes per second the receiver accepts
-    combos = [("memory", "pathio"), ("pathio", "asyncpathio")] + ([("asyncpathio", "memory"), ("memory", "asyncpathio"), ("pathio", "pathio")] if thorough else [])
+    # (a client on AsyncPathIO reads through the executor and is barely faster than the throttled receiver: its transport
+    # queues late or not at all; the PathIO / memory clients queue after the first ~4 MB every time)
+    combos = [("memory", "pathio"), ("pathio", "memory"), ("asyncpathio", "asyncpathio")] + (
+        [("memory", "asyncpathio"), ("pathio", "pathio"), ("asyncpathio", "pathio")] if thorough else [])
     for backend, cfs in combos:
         add("real_big", backend=backend, verb="UPLOAD", payload_gen=[rng.randrange(10**9), big_up], client_fs=cfs, throttle={"server_read": slow})
         add("real_big", backend=backend, verb="DOWNLOAD", payload_gen=[rng.randrange(10**9), big], client_fs=cfs, throttle={"client_read": slow})
